@@ -21,7 +21,7 @@ theorem normalize_slice_spec (start stop step : Option Int) (dim : Int) (hd : 0 
   cases step with
   | none =>
     cases start <;> cases stop <;>
-      simp only [normalizeSlice, Gen.replaceNone, Gen.posifySlice, Gen.clipSlice, pyAdjust, isEmpty,
+      simp only [normalizeSlice_eq, Ref.normalizeSlice, Ref.replaceNone, Ref.posifySlice, Ref.clipSlice, pyAdjust, isEmpty,
         Option.getD] <;> grind
   | some st =>
     have hst : st ≠ 0 := by intro h; exact hs (by rw [h])
@@ -29,11 +29,11 @@ theorem normalize_slice_spec (start stop step : Option Int) (dim : Int) (hd : 0 
     rcases hstep with h | h
     · have h1 : ¬ st < 0 := by omega
       cases start <;> cases stop <;>
-        simp only [normalizeSlice, Gen.replaceNone, Gen.posifySlice, Gen.clipSlice, pyAdjust, isEmpty,
+        simp only [normalizeSlice_eq, Ref.normalizeSlice, Ref.replaceNone, Ref.posifySlice, Ref.clipSlice, pyAdjust, isEmpty,
           Option.getD, h, h1, if_true, if_false] <;> grind
     · have h1 : ¬ st > 0 := by omega
       cases start <;> cases stop <;>
-        simp only [normalizeSlice, Gen.replaceNone, Gen.posifySlice, Gen.clipSlice, pyAdjust, isEmpty,
+        simp only [normalizeSlice_eq, Ref.normalizeSlice, Ref.replaceNone, Ref.posifySlice, Ref.clipSlice, pyAdjust, isEmpty,
           Option.getD, h, h1, if_true, if_false] <;> grind
 
 /-- the selected index list is Python's -/
@@ -54,8 +54,7 @@ example : normalizeSlice none (some (-1)) (some (-1)) 7 = pyAdjust none (some (-
 then mapped to `i mod dim`; otherwise `IndexError`. -/
 theorem normalize_int_spec (i dim : Int) :
     normalizeInt i dim = (if -dim ≤ i ∧ i < dim then .ok (if i < 0 then i + dim else i) else .error Err.index) := by
-  simp only [normalizeInt, Gen.checkIndexInt, Gen.posifyInt]
-  grind
+  exact normalizeInt_eq i dim
 
 /-! ## Basic indexing (integers, slices of any step, `None`) -/
 
